@@ -17,6 +17,9 @@ type Atom struct {
 	Key  string
 	Deps []ssa.Value // instructions on whose (re)execution the atom's meaning depends
 	Phi  *ssa.Phi    // variable atom standing for a boolean phi
+	// NilEq: the atom stands for (Phi == nil) of a pointer/interface-valued phi (an error travelling through the
+	// result variable of an inlined helper); its value is assigned on the phi's incoming edges like a boolean phi's
+	NilEq *ssa.Const
 	Ev   bool        // synthetic event variable
 	// structure, for rule-side classification
 	Kind string    // "eq" (X == Y), "lt" (X < Y), "len0" (len(X)==0), "mapok" (X map, Y key), "isa", "val" (X), "phi", "ev"
@@ -288,6 +291,17 @@ func (A *Analysis) binop(x *ssa.BinOp, pc pathCtx) *F {
 			fa, fb := A.cond(a, pc), A.cond(b, pc)
 			return Or(And(fa, fb), And(Not(fa), Not(fb)))
 		}
+		// a pointer / interface phi compared with nil
+		if kb, ok := b.(*ssa.Const); ok && kb.IsNil() {
+			if _, isPhi := a.(*ssa.Phi); isPhi {
+				return A.nilEq(a, kb, pc)
+			}
+		}
+		if ka, ok := a.(*ssa.Const); ok && ka.IsNil() {
+			if _, isPhi := b.(*ssa.Phi); isPhi {
+				return A.nilEq(b, ka, pc)
+			}
+		}
 		l, r := sa, sb
 		xa, xb := a, b
 		if aConst && !bConst || (!aConst && !bConst && l > r) {
@@ -411,6 +425,63 @@ func (A *Analysis) pathCond(path []*ssa.BasicBlock) (*F, pathCtx) {
 		}
 	}
 	return And(conj...), pc
+}
+
+// PhiEdgeCond is the formula assigned to a phi atom when control arrives over edge i of its phi.
+func (A *Analysis) PhiEdgeCond(at *Atom, i int) *F {
+	e := at.Phi.Edges[i]
+	if at.NilEq != nil {
+		return A.nilEq(e, at.NilEq, nil)
+	}
+	return A.Cond(e)
+}
+
+// nilEq: the formula for v == nil.
+func (A *Analysis) nilEq(v ssa.Value, nilc *ssa.Const, pc pathCtx) *F {
+	switch x := v.(type) {
+	case *ssa.Const:
+		if x.IsNil() {
+			return True
+		}
+	case *ssa.MakeInterface:
+		return False
+	case *ssa.Phi:
+		if pc != nil {
+			if pred, ok := pc[x.Block()]; ok {
+				for i, p := range x.Block().Preds {
+					if p == pred {
+						return A.nilEq(x.Edges[i], nilc, pc)
+					}
+				}
+			}
+		}
+		f := A.eqAtom(v, nilc)
+		if f.Op == 'a' {
+			at := A.Atoms[f.Atom]
+			if at.Phi == nil {
+				at.Phi, at.NilEq = x, nilc
+			}
+		}
+		return f
+	}
+	return A.eqAtom(v, nilc)
+}
+
+// eqAtom: the canonical equality atom for two values (constants on the right).
+func (A *Analysis) eqAtom(a, b ssa.Value) *F {
+	sa, sb := A.Sym.Of(a), A.Sym.Of(b)
+	_, aConst := a.(*ssa.Const)
+	_, bConst := b.(*ssa.Const)
+	quoted := func(s string) bool { return len(s) >= 2 && s[0] == '"' && s[len(s)-1] == '"' }
+	aConst = aConst || quoted(sa)
+	bConst = bConst || quoted(sb)
+	l, r := sa, sb
+	xa, xb := a, b
+	if aConst && !bConst || (!aConst && !bConst && l > r) {
+		l, r = r, l
+		xa, xb = b, a
+	}
+	return A.structAtom(A.keyAtom("("+l+" == "+r+")", a, b), "eq", xa, xb)
 }
 
 // expandPhi expresses a non-loop boolean phi through the branch conditions between its block's
@@ -614,9 +685,9 @@ func (A *Analysis) NewQuery(track []int) (*Query, error) {
 		changed = false
 		for i := range cand {
 			ok := true
-			for _, e := range A.Atoms[i].Phi.Edges {
+			for ei := range A.Atoms[i].Phi.Edges {
 				m := map[int]bool{}
-				A.Cond(e).Atoms(m)
+				A.PhiEdgeCond(A.Atoms[i], ei).Atoms(m)
 				for k := range m {
 					if !set[k] && !cand[k] {
 						ok = false
@@ -984,20 +1055,12 @@ func (q *Query) assignPhis(pred, succ *ssa.BasicBlock, s []uint64) []uint64 {
 			pi = i
 		}
 	}
-	for _, in := range succ.Instrs {
-		phi, ok := in.(*ssa.Phi)
-		if !ok {
-			break
-		}
-		ai := q.A.AtomIndex(q.A.Sym.Of(phi))
-		if ai < 0 || q.A.Atoms[ai].Phi != phi {
+	for _, ai := range q.Tracked {
+		at := q.A.Atoms[ai]
+		if at.Phi == nil || at.Phi.Block() != succ || pi < 0 {
 			continue
 		}
-		p, ok := q.pos[ai]
-		if !ok {
-			continue
-		}
-		as = append(as, asg{p, q.A.Cond(phi.Edges[pi])})
+		as = append(as, asg{q.pos[ai], q.A.PhiEdgeCond(at, pi)})
 	}
 	if len(as) == 0 {
 		return s
@@ -1198,8 +1261,8 @@ func (A *Analysis) Prepare() {
 		n = len(A.Atoms)
 		for i := 0; i < len(A.Atoms); i++ {
 			if ph := A.Atoms[i].Phi; ph != nil {
-				for _, e := range ph.Edges {
-					A.Cond(e)
+				for ei := range ph.Edges {
+					A.PhiEdgeCond(A.Atoms[i], ei)
 				}
 			}
 		}
